@@ -31,6 +31,15 @@ var corpus = []string{
 	"nb:map bm:0:4 ae:1:61 as:2:i1 ak:1 as:4:s62 av:1 as:6:t fi:1 bu:0 nb:map an:10:9 bu:10 rs:0 bm:0:1 ae:14:7a as:15:n fi:14 bu:0 lk:9:61 lk:12:62",
 	// nested assemblers, child finish inserts into the parent
 	"nb:any bm:0:0 ae:1:6b bl:2:1 av:3 bm:4:0 ae:5:78 as:6:s79 fi:5 fi:3 ae:1:6c as:10:d3ff0000000000000 fi:1 bu:0 tf:13:s6b/i0/s78:13 cp:13:map",
+	// readers handed out by AsLargeBytes: several alive at once, partial reads, seeks, interleaved with
+	// AsBytes (every re-dump), subset matches and seeks to the end by other readers of the same node
+	"sl:6162636465666768 nst:0 lb:1 rr:2:3 lb:1 sk:4:0:e rr:2:a sk:4:-2:e rr:4:a",
+	"sl:6162636465666768 nst:0 lb:1! rr:2:3! lb:1! sk:4:0:e! rr:2:a sk:4:-2:e! rr:4:a",
+	"sl:6162636465666768 nst:0 lb:1! rr:2:2! mt:1:1:5! rr:2:2! sk:2:0:e! sk:2:3:s! rr:2:a",
+	"sl:61626364 nby:0 nb:bytes an:2:1 bu:2 lb:4! lb:4! rr:5:1! sk:6:0:e! rr:5:a! sk:6:1:s! rr:6:2! rr:5:a",
+	"sl:6162636465666768 nst:0 lb:1 rr:2:2 mt:1:1:5 rr:2:2 lb:4 rr:6:1 rr:2:a rr:6:a sk:2:1:s rr:2:2 sk:2:1:c rr:2:a",
+	"sl:61626364 nby:0 nb:bytes an:2:1 bu:2 lb:4 lb:4 rr:5:1 rr:6:2 sk:5:0:e sk:5:0:s rr:6:a rr:5:a sk:6:-9:c",
+	"sl:616263 nby:0 lb:1 lb:1 rr:2:1 rr:3:a rr:2:a sk:3:1:s rr:3:1 fo:b6162 lb:9 ns:i1 lb:11",
 	// misuse: BeginMap on a finished builder overwrites the built node's tables
 	"nb:map bm:0:1 ae:1:6b as:2:i1 fi:1 bu:0 bm:0:0",
 	// misuse: second Assign on a scalar builder writes through the built node
@@ -75,8 +84,16 @@ type gen struct {
 	lastOut string
 }
 
+// reader-level ops are mostly run without the dumper's AsBytes calls in between
+func (g *gen) quiet() string {
+	if g.r.Chance(70) {
+		return "!"
+	}
+	return ""
+}
+
 func (g *gen) emit(op string) (string, int) {
-	out, nr := g.m.exec(op)
+	out, nr := g.m.exec(strings.TrimSuffix(op, "!"))
 	g.lastOut = out
 	g.m.regs = append(g.m.regs, nr)
 	g.ops = append(g.ops, op)
@@ -512,6 +529,31 @@ func (g *gen) moves() []move {
 		add(2, func() { g.emit(fmt.Sprintf("en:%d", g.anyOf(nodes))) })
 		add(1, func() { g.emit(fmt.Sprintf("wk:%d", g.anyOf(nodes))) })
 	}
+	// readers: hand out, read in pieces, seek; several per node, interleaved with everything else
+	if bs := g.nodesOfKind(datamodel.Kind_Bytes); len(bs) > 0 {
+		add(4, func() { g.emit(fmt.Sprintf("lb:%d%s", g.anyOf(bs), g.quiet())) })
+	}
+	if bs := g.nodesOfKind(datamodel.Kind_Bytes); len(bs) > 0 && len(g.ops) < g.target-6 {
+		add(5, func() { g.readerEpisode(bs) })
+	}
+	if rds := g.regsOf(rReader); len(rds) > 0 {
+		add(6, func() {
+			k := g.pick([]string{"1", "1", "2", "3", "a"})
+			g.emit(fmt.Sprintf("rr:%d:%s%s", g.anyOf(rds), k, g.quiet()))
+		})
+		add(4, func() {
+			switch g.r.Intn(4) {
+			case 0:
+				g.emit(fmt.Sprintf("sk:%d:%d:s%s", g.anyOf(rds), g.r.Intn(5), g.quiet()))
+			case 1:
+				g.emit(fmt.Sprintf("sk:%d:%d:c%s", g.anyOf(rds), g.r.Intn(5)-2, g.quiet()))
+			case 2:
+				g.emit(fmt.Sprintf("sk:%d:%d:e%s", g.anyOf(rds), -g.r.Intn(4), g.quiet()))
+			default:
+				g.emit(fmt.Sprintf("sk:%d:0:e%s", g.anyOf(rds), g.quiet()))
+			}
+		})
+	}
 	if g.misuse && !g.misused && len(g.ops) > 3 {
 		add(3, g.doMisuse)
 	}
@@ -573,6 +615,45 @@ func (g *gen) lookup(n int) {
 	}
 }
 
+// a burst of reader-level calls on one bytes node (stream-backed ones preferred) with no dump in
+// between: a reader part-way through, then other readers / seeks to the end / subset matches on the
+// same node, then the first reader goes on
+func (g *gen) readerEpisode(bs []int) {
+	n := g.anyOf(bs)
+	for _, c := range bs {
+		if fmt.Sprintf("%T", g.m.regs[c].n) == "basicnode.streamBytes" && g.r.Chance(70) {
+			n = c
+			break
+		}
+	}
+	_, r1 := g.emit(fmt.Sprintf("lb:%d!", n))
+	if g.sh[r1].kind != rReader {
+		return
+	}
+	g.emit(fmt.Sprintf("rr:%d:%d!", r1, 1+g.r.Intn(3)))
+	for i, k := 0, 1+g.r.Intn(3); i < k; i++ {
+		switch g.r.Intn(5) {
+		case 0:
+			if _, r2 := g.emit(fmt.Sprintf("lb:%d!", n)); g.sh[r2].kind == rReader {
+				g.emit(fmt.Sprintf("sk:%d:%d:e!", r2, -g.r.Intn(3)))
+				if g.r.Bool() {
+					g.emit(fmt.Sprintf("rr:%d:%d!", r2, 1+g.r.Intn(2)))
+				}
+			}
+		case 1:
+			g.emit(fmt.Sprintf("mt:%d:%d:%d!", n, g.r.Intn(2), 2+g.r.Intn(4)))
+		case 2:
+			g.emit(fmt.Sprintf("sk:%d:0:e!", r1))
+			g.emit(fmt.Sprintf("sk:%d:%d:s!", r1, g.r.Intn(4)))
+		case 3:
+			g.emit(fmt.Sprintf("rr:%d:1!", r1))
+		default:
+			g.emit(fmt.Sprintf("sk:%d:%d:c!", r1, g.r.Intn(3)-1))
+		}
+	}
+	g.emit(fmt.Sprintf("rr:%d:a", r1))
+}
+
 func (g *gen) subset(n int) {
 	l := 4
 	node := g.m.regs[n].n
@@ -588,7 +669,11 @@ func (g *gen) subset(n int) {
 	if to >= 0 && from > to {
 		from, to = to, from
 	}
-	g.emit(fmt.Sprintf("mt:%d:%d:%d", n, from, to))
+	q := ""
+	if len(g.regsOf(rReader)) > 0 {
+		q = g.quiet()
+	}
+	g.emit(fmt.Sprintf("mt:%d:%d:%d%s", n, from, to, q))
 }
 
 func (g *gen) transform(n, repl int) {
